@@ -227,7 +227,8 @@ def side_case(seed):
     fam = rng.choice(FAM_ALL)
     dim = rng.randint(1, 4)
     index = rng.randrange(dim)
-    f, env = make_instance(fam, rng, index, dim)
+    sub = rng.getrandbits(32)
+    f, env = make_instance(fam, random.Random(sub), index, dim)
     t = point_inside(f, fam, rng, dim, index)
     desc = {'family': fam, 'dimension': dim, 'index': index, 'params': {k: v for k, v in env.items()}, 't': t.tolist()}
     h = 1e-5
@@ -261,6 +262,28 @@ def side_case(seed):
         He = np.array([[float(f.partial2(t, i, j)) for j in range(dim)] for i in range(dim)])
         if not rel_close(H, He, 1e-12):
             return 'hessian is not the matrix of second partials', desc
+    # the same on fresh objects built WITHOUT the dimension (it is then taken from the first point seen), gradient resp.
+    # Hessian being the very first call
+    for name, ref in (('gradient', g),) + ((('hessian', H),) if has_p2 else ()):
+        f2, _ = make_instance(fam, random.Random(sub), index, None)
+        try:
+            got = getattr(f2, name)(t)
+        except Exception as e:
+            return '%s as first call on an object built without dimension raised %r' % (name, e), desc
+        if np.shape(got) != np.shape(ref) or not rel_close(got, ref, 1e-12):
+            return '%s as first call on an object built without dimension differs' % name, desc
+    # integer-typed points denote the same points
+    if fam != 'Bspline':
+        ti = np.array([rng.randint(-2, 2) for _ in range(dim)])
+        tf = ti.astype(float)
+        desc['t_int'] = ti.tolist()
+        for name in ('__call__', 'gradient') + (('hessian',) if has_p2 else ()):
+            try:
+                a, b = getattr(f, name)(ti), getattr(f, name)(tf)
+            except Exception as e:
+                return '%s at an integer-typed point raised %r' % (name, e), desc
+            if np.shape(a) != np.shape(b) or not rel_close(np.asarray(a, dtype=float), np.asarray(b, dtype=float), 1e-12):
+                return '%s at an integer-typed point differs from the value at the same point as floats' % name, desc
     # vectorised evaluation = point by point
     m = rng.randint(1, 4)
     T = np.array([point_inside(f, fam, rng, dim, index) for _ in range(m)]).T      # dim x m
